@@ -66,6 +66,27 @@ type Obs struct {
 // patch).  It is set once per run by probeGuard.
 var modelGuard = false
 
+// resetInPlace: Reset() empties the shared map instead of installing a new one (so that session
+// handles see it); probed once per run like modelGuard, only to decide whether an input with a
+// session handle next to a Reset still carries the signature of the known finding.
+var resetInPlace = false
+
+func probeResetInPlace(e *env) bool {
+	q := Op{K: "query", Q: 0}
+	in := Input{Progs: [][]Op{{q, q}, {{K: "reset"}}, {{K: "close"}}}, Handles: []string{"session", "root", "root"},
+		Script: []Step{{Pick: 0}, {Pick: 0}, {Pick: 0}, {Pick: 1}, {Pick: 0}, {Pick: 0}, {Pick: 0}, {Pick: 0}}}
+	o := e.run(in)
+	// after a reset that the session handle sees, its second use has to prepare the text again
+	// (with the stale map it finds the old entry: one Prepare call only) -- independent of timing
+	n := 0
+	for _, ev := range o.Trace {
+		if ev.K == "prepcall" {
+			n++
+		}
+	}
+	return !o.Hang && n == 2
+}
+
 // probeGuard replays the deterministic stale-delete schedule (ErrBadConn of a goroutine whose
 // entry was reset away deletes the newer entry): if the newer statement survives in the cache and
 // is closed by the final Close, the code has guarded deletes.  Every case of the run, including
@@ -461,19 +482,29 @@ func sig(in Input, tr []Ev) string {
 			return "tx-holds-last-connection"
 		}
 	}
-	// a session handle next to a Reset/Close issued by another goroutine (corpus only: the
-	// generators never combine the two)
+	// a session handle next to a Close (corpus only: never generated) or a Reset (generated) issued
+	// by another goroutine
+	sessReset, sessClose := false, false
 	for i, h := range in.Handles {
 		if h != "session" {
 			continue
 		}
 		for j, p := range in.Progs[:len(in.Progs)-1] {
 			for _, o := range p {
-				if j != i && (o.K == "reset" || o.K == "close") {
-					return "session-handle-keeps-old-map"
+				if j != i && o.K == "close" {
+					sessClose = true
+				}
+				if j != i && o.K == "reset" {
+					sessReset = true
 				}
 			}
 		}
+	}
+	if sessClose {
+		return "session-handle-after-close"
+	}
+	if sessReset && !resetInPlace {
+		return "session-handle-after-reset"
 	}
 	for _, w := range ws {
 		if !isUse(w.op) {
@@ -614,17 +645,19 @@ func genProg(r *lib.Rng, nops int, edge bool) []Op {
 	return p
 }
 
-// genHandles: with probability num/den, and only when no goroutine but the last resets or closes
-// the cache (a session handle keeps the map it was created with: known finding
-// session-handle-keeps-old-map, replayed from the corpus), every goroutine gets at random the root
-// handle or a Session{PrepareStmt:true} value of its own.
+// genHandles: with probability num/den, and only when no goroutine but the last CLOSES the cache
+// (Close sets Stmts = nil on the root only; a session handle keeps the old map: known finding
+// session-handle-after-close, replayed from the corpus), every goroutine gets at random the root
+// handle or a Session{PrepareStmt:true} value of its own.  A Reset by another goroutine is admitted.
 func genHandles(r *lib.Rng, progs [][]Op, num, den int) []string {
 	if !r.Chance(num, den) {
 		return nil
 	}
 	for _, p := range progs[:len(progs)-1] {
 		for _, o := range p {
-			if o.K == "reset" || o.K == "close" {
+			// (while Reset still installs a new map, the same holds for Reset: known finding
+			// session-handle-after-reset; once Reset empties the map in place the pair is generated)
+			if o.K == "close" || o.K == "reset" && !resetInPlace {
 				return nil
 			}
 		}
@@ -778,6 +811,7 @@ func main() {
 	}
 	e := setup(a.Out)
 	modelGuard = probeGuard(e)
+	resetInPlace = probeResetInPlace(e)
 	out := lib.NewOut(a.Out, "C14")
 	out.Extra["model_variant"] = map[bool]string{false: "unconditional delete(Stmts, query) (prepare_stmt.go as of the pinned tree)", true: "guarded deletes (stale-delete patch present)"}[modelGuard]
 	out.PerFile = 40
